@@ -29,7 +29,7 @@ MENU_SE = [
     ("length_tag", dict(length_tag="length=")),
     ("strip_suffix", dict(strip_suffix=["/1"])),
     ("prefix_suffix", dict(prefix="P{name}_", suffix="_S")),
-    ("rename", dict(rename="{id}_{adapter_name}_{cut_prefix} {comment}")),
+    ("rename", dict(rename="{id}_{adapter_name}_{cut_prefix} {comment} [{header}]")),
     ("zero_cap", dict(zero_cap=True)),
 ]
 MENU_PE = [
